@@ -11,8 +11,15 @@
 //!
 //! Oracle (the property text as predicates on the real results, against an independent reference
 //! that places every single bit by the documented layout, `ref_bit`):
-//!   Lean statements mirrored: `load_store_same`, `load_store_other`, `store_touches_only`,
-//!   `store_oob`, `load_oob`, `layout_bit`, `iter_toList`, `iter_nth`, `size_hint_exact`.
+//!   Lean statements mirrored (EG/Props/C11.lean): `load_store_same`, `load_store_other`,
+//!   `store_touches_only`, `store_touches_only_bits`, `store_oob`, `load_oob`, `layout_subbyte`,
+//!   `layout_u8`, `layout_multibyte`, `iter_toList`, `iter_next`, `iter_nth`, `size_hint_exact`,
+//!   `size_hint_brackets`.
+//!
+//! Not generated on purpose: indices above `usize::MAX / 4`. There `index * 2/3/4` in the
+//! multi-byte `load`/`store` overflows `usize` (checked build: panic "attempt to multiply with
+//! overflow", e.g. `raw.load 16 0 1,2 9223372036854775808`; the model, with `Nat` indices, says
+//! `none`). That is an arithmetic-range observation for C08, not part of C11's scope.
 use crate::common::*;
 use embedded_graphics::{iterator::raw::RawDataSlice, pixelcolor::raw::*};
 
